@@ -93,11 +93,11 @@ def pools(clsname):
         P.update({
             "wdm_mass": [3.0, 1.0, 10.0, 0.5],
             "wdm_model": [wdm.Viel05, "Viel05", "Bode01" if hasattr(wdm, "Bode01") else "Viel05", "Nah"],
-            "wdm_params": [{}, {"mu": 1.2}, {"g_x": 2.0}, {"mu": 1.12, "g_x": 1.5}],
+            "wdm_params": [{}, {"mu": 1.2}, {"g_x": 2.0}, {"mu": 1.12, "g_x": 1.5}, {"nonsense": 1.0}],
         })
         if clsname == "MassFunctionWDM":
             P.update({"alter_model": [None, "Schneider12_vCDM", "Schneider12", "Lovell14", "Nix"],
-                      "alter_params": [{}, {"beta": 1.0}, {"alpha": 0.5}]})
+                      "alter_params": [{}, {"beta": 1.0}, {"alpha": 0.5}, {"nonsense": 2.0}]})
     return P
 
 
